@@ -9,32 +9,54 @@ EXTENDS Integers, Sequences, FiniteSets, TLC
 CONSTANTS Ev, Hid, Prio, MaxTasks, MaxOps,
           HkSet,   \* handler registered with its own kwarg a="h" (TRUE) or without (FALSE); posts carry a="p"
           CondSet, \* handler condition: -1 none, else the value the posted kwarg c must have
-          CSet     \* values of the posted kwarg c
+          CSet,    \* values of the posted kwarg c
+          ModeKinds \* which mode listens on the start event "qm": "none" | "wq" (use_wait_queue: true) | "nowq"
 VARIABLES reg,     \* registered handlers: set of [id, ev, prio, hk, cond]
           tasks,   \* sequence of [ev, c, todo, st]   st: "posted" | "run" | "sleep" | "done"
           snapp,   \* sequence (per task): snapshot as set of handler records
           out,     \* outstanding waits: set of <<task, handler id>>
           clr,     \* waits that have been cleared (a QueuedEvent is waited on at most once)
           inh,     \* <<task, handler id>> of the handler currently executing, or <<0, "">>
-          nops, act
-vars == <<reg, tasks, snapp, out, clr, inh, nops, act>>
+          nops, act,
+          md       \* the mode (a real Mode object in the driver): [kind, st, hold, stask, ptask, pend]
+                   \*   st: "idle" | "starting" | "active" | "stopping" | "cleanup"; hold: the wait <<task, ModeH>> of the
+                   \*   start request which the mode holds until it has stopped (use_wait_queue), or NoH;
+                   \*   stask / ptask: the task of its own mode_<name>_starting / _stopping queue event;
+                   \*   pend: kwarg c of the start requests put off while the stopped mode cleans up
+vars == <<reg, tasks, snapp, out, clr, inh, nops, act, md>>
 NoH == <<0, "">>
+(* A mode is started by the queue event "qm": Mode.start is an ordinary handler (id ModeH, priority 2) of that event. *)
+(* A request which finds the mode idle is ACCEPTED: the mode posts its own queue event "ms" (mode_<name>_starting,  *)
+(* with the kwargs of the request) and, with use_wait_queue, registers a wait on the request's QueuedEvent which it  *)
+(* clears when it has stopped.  A request which finds the mode starting, active or stopping is REFUSED: nothing is   *)
+(* posted and no wait is registered, the request's queue event goes on with its other handlers and completes.        *)
+(* The mode becomes active with the completion callback of "ms"; stop() of an active mode posts the queue event "mp" *)
+(* (mode_<name>_stopping, no kwargs) whose completion callback ends the mode and releases the held request.          *)
+(* The stopped mode removes its handlers and devices a little later (after its mode_<name>_stopped event): a start    *)
+(* request in between ("cleanup") is refused like the others - no wait, nothing posted - but remembered: the mode     *)
+(* starts by itself (holding nothing) once it has cleaned up.                                                         *)
+ModeH == "hm"
+ModeRec == [id |-> ModeH, ev |-> "qm", prio |-> 2, hk |-> FALSE, cond |-> -1]
+ModeIntEv == {"ms", "mp"}      \* posted by the mode only
+NoC == -2                      \* the stopping event carries no kwargs: a condition on c is false
 NoCondSet == {-1}          \* (cfg files cannot hold negative numbers)
 FullCondSet == {-1, 1}
-Init == reg = {} /\ tasks = <<>> /\ snapp = <<>> /\ out = {} /\ clr = {} /\ inh = NoH /\ nops = 0 /\ act = [op |-> "init"]
+Init == /\ md \in {[kind |-> x, st |-> "idle", hold |-> NoH, stask |-> 0, ptask |-> 0, pend |-> <<>>] : x \in ModeKinds}
+        /\ reg = (IF md.kind = "none" THEN {} ELSE {ModeRec})
+        /\ tasks = <<>> /\ snapp = <<>> /\ out = {} /\ clr = {} /\ inh = NoH /\ nops = 0 /\ act = [op |-> "init"]
 Ids(S) == {h.id : h \in S}
 Budget == nops < MaxOps /\ nops' = nops + 1
 \* (registrations are identified by fresh keys: an id is not reused while a dispatch that saw it is in flight)
 AddQ(h, e, p, hk, cond) == /\ Budget /\ h \notin Ids(reg) /\ (\A k \in DOMAIN tasks : tasks[k].st # "done" => h \notin Ids(snapp[k]))
                  /\ reg' = reg \cup {[id |-> h, ev |-> e, prio |-> p, hk |-> hk, cond |-> cond]}
-                 /\ act' = [op |-> "qadd", h |-> h, ev |-> e, prio |-> p, hk |-> hk, cond |-> cond] /\ UNCHANGED <<tasks, snapp, out, clr, inh>>
+                 /\ act' = [op |-> "qadd", h |-> h, ev |-> e, prio |-> p, hk |-> hk, cond |-> cond] /\ UNCHANGED <<tasks, snapp, out, clr, inh, md>>
 RemoveQ(h) == /\ Budget /\ h \in Ids(reg) /\ reg' = {x \in reg : x.id # h}
-              /\ act' = [op |-> "qremove", h |-> h] /\ UNCHANGED <<tasks, snapp, out, clr, inh>>
+              /\ act' = [op |-> "qremove", h |-> h] /\ UNCHANGED <<tasks, snapp, out, clr, inh, md>>
 \* post_queue from anywhere (top level or from inside a handler)
-PostQ(e, c) == /\ Budget /\ Len(tasks) < MaxTasks
+PostQ(e, c) == /\ Budget /\ Len(tasks) < MaxTasks /\ e \notin ModeIntEv
             /\ tasks' = Append(tasks, [ev |-> e, c |-> c, todo |-> {}, st |-> "posted"])
             /\ snapp' = Append(snapp, {})
-            /\ act' = [op |-> "qpost", ev |-> e, c |-> c] /\ UNCHANGED <<reg, out, clr, inh>>
+            /\ act' = [op |-> "qpost", ev |-> e, c |-> c] /\ UNCHANGED <<reg, out, clr, inh, md>>
 \* the event bus gets to the posted queue event: its dispatcher starts with the handlers registered now.
 \* A handler whose condition does not hold for the posted kwargs is not called (conditions only read c, which no
 \* handler kwarg overrides here, so this is decided when the dispatch begins)
@@ -43,7 +65,7 @@ QBegin(k) == /\ k \in DOMAIN tasks /\ tasks[k].st = "posted" /\ inh = NoH
              /\ LET S == {h \in reg : h.ev = tasks[k].ev} IN
                 /\ tasks' = [tasks EXCEPT ![k].todo = Ids({h \in S : CondOK(h, tasks[k].c)}), ![k].st = "run"]
                 /\ snapp' = [snapp EXCEPT ![k] = S]
-             /\ act' = [op |-> "qbegin", k |-> k] /\ UNCHANGED <<reg, out, clr, inh, nops>>
+             /\ act' = [op |-> "qbegin", k |-> k] /\ UNCHANGED <<reg, out, clr, inh, nops, md>>
 HasOut(k) == \E w \in out : w[1] = k
 PrioOf(k, h) == (CHOOSE x \in snapp[k] : x.id = h).prio
 \* the kwarg a the handler must see: its registered value wins over the posted one
@@ -55,38 +77,111 @@ QInvoke(k, h) ==
     /\ h \in tasks[k].todo /\ \A g \in tasks[k].todo : PrioOf(k, g) <= PrioOf(k, h)
     /\ tasks' = [tasks EXCEPT ![k].todo = @ \ {h}]
     /\ inh' = <<k, h>> /\ act' = [op |-> "qinvoke", k |-> k, h |-> h, a |-> ArgOf(k, h)]
-    /\ UNCHANGED <<reg, snapp, out, clr, nops>>
+    /\ UNCHANGED <<reg, snapp, out, clr, nops, md>>
 \* the running handler registers a wait on its QueuedEvent
 Wait == /\ inh # NoH /\ inh \notin out \cup clr /\ out' = out \cup {inh}
-        /\ act' = [op |-> "wait", k |-> inh[1], h |-> inh[2]] /\ UNCHANGED <<reg, tasks, snapp, clr, inh, nops>>
+        /\ act' = [op |-> "wait", k |-> inh[1], h |-> inh[2]] /\ UNCHANGED <<reg, tasks, snapp, clr, inh, nops, md>>
 QRet == /\ inh # NoH /\ inh' = NoH
         /\ tasks' = [tasks EXCEPT ![inh[1]].st = IF inh \in out THEN "sleep" ELSE "run"]
-        /\ act' = [op |-> "qret"] /\ UNCHANGED <<reg, snapp, out, clr, nops>>
+        /\ act' = [op |-> "qret"] /\ UNCHANGED <<reg, snapp, out, clr, nops, md>>
 \* somebody clears an outstanding wait (possibly the handler itself before returning)
 Clear(k, h) == /\ <<k, h>> \in out /\ out' = out \ {<<k, h>>} /\ clr' = clr \cup {<<k, h>>}
                /\ tasks' = [tasks EXCEPT ![k].st = IF @ = "sleep" THEN "run" ELSE @]
-               /\ act' = [op |-> "clear", k |-> k, h |-> h] /\ UNCHANGED <<reg, snapp, inh, nops>>
+               /\ act' = [op |-> "clear", k |-> k, h |-> h] /\ UNCHANGED <<reg, snapp, inh, nops, md>>
 \* a handler of the snapshot that has been removed meanwhile need not be called
 SkipRemoved(k, h) == /\ k \in DOMAIN tasks /\ tasks[k].st = "run" /\ inh = NoH /\ h \in tasks[k].todo /\ h \notin Ids(reg)
                      /\ tasks' = [tasks EXCEPT ![k].todo = @ \ {h}] /\ act' = [op |-> "skip", k |-> k, h |-> h]
-                     /\ UNCHANGED <<reg, snapp, out, clr, inh, nops>>
-\* completion callback: exactly once, after every handler has run and every wait has been cleared
+                     /\ UNCHANGED <<reg, snapp, out, clr, inh, nops, md>>
+\* completion callback: exactly once, after every handler has run and every wait has been cleared.
+\* The callbacks of the mode's own queue events are Mode._started (the mode is active) and Mode._stopped (the mode
+\* has ended; it clears the wait on the request which started it: that queue event can go on / complete now)
 QCallback(k) == /\ k \in DOMAIN tasks /\ tasks[k].st = "run" /\ tasks[k].todo = {} /\ ~HasOut(k)
                 /\ (inh = NoH \/ inh[1] # k)
-                /\ tasks' = [tasks EXCEPT ![k].st = "done"]
-                /\ act' = [op |-> "qcallback", k |-> k] /\ UNCHANGED <<reg, snapp, out, clr, inh, nops>>
+                /\ LET started == md.st = "starting" /\ k = md.stask
+                       stopped == md.st = "stopping" /\ k = md.ptask
+                       rel == stopped /\ md.hold # NoH
+                   IN /\ md' = IF started THEN [md EXCEPT !.st = "active"]
+                                ELSE IF stopped THEN [md EXCEPT !.st = "cleanup", !.hold = NoH] ELSE md
+                      /\ out' = IF rel THEN out \ {md.hold} ELSE out
+                      /\ clr' = IF rel THEN clr \cup {md.hold} ELSE clr
+                      /\ tasks' = [t \in DOMAIN tasks |->
+                                      IF t = k THEN [tasks[t] EXCEPT !.st = "done"]
+                                      ELSE IF rel /\ t = md.hold[1] /\ tasks[t].st = "sleep" THEN [tasks[t] EXCEPT !.st = "run"]
+                                      ELSE tasks[t]]
+                /\ act' = [op |-> "qcallback", k |-> k] /\ UNCHANGED <<reg, snapp, inh, nops>>
+\* the dispatcher of task k (a "qm" queue event) calls the mode's start handler; Mode.start runs and returns
+ModeTask(e, c) == [ev |-> e, c |-> c, todo |-> {}, st |-> "posted"]
+QInvokeMode(k) ==
+    /\ k \in DOMAIN tasks /\ tasks[k].st = "run" /\ inh = NoH /\ ~HasOut(k)
+    /\ ModeH \in tasks[k].todo /\ \A g \in tasks[k].todo : PrioOf(k, g) <= PrioOf(k, ModeH)
+    /\ LET acc == md.st = "idle"
+           w == acc /\ md.kind = "wq"
+       IN /\ tasks' = IF acc THEN Append([tasks EXCEPT ![k].todo = @ \ {ModeH}, ![k].st = IF w THEN "sleep" ELSE "run"],
+                                         ModeTask("ms", tasks[k].c))
+                               ELSE [tasks EXCEPT ![k].todo = @ \ {ModeH}]
+          /\ snapp' = IF acc THEN Append(snapp, {}) ELSE snapp
+          /\ out' = IF w THEN out \cup {<<k, ModeH>>} ELSE out
+          /\ md' = IF acc THEN [md EXCEPT !.st = "starting", !.hold = IF w THEN <<k, ModeH>> ELSE NoH, !.stask = Len(tasks) + 1]
+                          ELSE IF md.st = "cleanup" THEN [md EXCEPT !.pend = Append(@, tasks[k].c)] ELSE md
+          /\ act' = [op |-> "mreq", k |-> k, acc |-> acc, w |-> w]
+    /\ UNCHANGED <<reg, clr, inh, nops>>
+\* Mode.start() called directly (no queue event: nothing to hold), from anywhere
+ModeStart(c) == /\ Budget /\ md.kind # "none"
+                /\ LET acc == md.st = "idle"
+                   IN /\ tasks' = IF acc THEN Append(tasks, ModeTask("ms", c)) ELSE tasks
+                      /\ snapp' = IF acc THEN Append(snapp, {}) ELSE snapp
+                      /\ md' = IF acc THEN [md EXCEPT !.st = "starting", !.hold = NoH, !.stask = Len(tasks) + 1]
+                               ELSE IF md.st = "cleanup" THEN [md EXCEPT !.pend = Append(@, c)] ELSE md
+                      /\ act' = [op |-> "mstart", c |-> c, acc |-> acc]
+                /\ UNCHANGED <<reg, out, clr, inh>>
+\* the stopped mode has cleaned up (Mode._mode_stopped_callback); the first start request it put off meanwhile starts it now
+\* (with that request's kwargs; the request's queue event is not held: its dispatcher has long gone on), the others find
+\* it starting
+ModeCleaned == /\ md.st = "cleanup"
+               /\ LET go == md.pend # <<>>
+                  IN /\ tasks' = IF go THEN Append(tasks, ModeTask("ms", Head(md.pend))) ELSE tasks
+                     /\ snapp' = IF go THEN Append(snapp, {}) ELSE snapp
+                     /\ md' = IF go THEN [md EXCEPT !.st = "starting", !.stask = Len(tasks) + 1, !.pend = <<>>]
+                                   ELSE [md EXCEPT !.st = "idle"]
+                     /\ act' = [op |-> "mclean", go |-> go]
+               /\ UNCHANGED <<reg, out, clr, inh, nops>>
+\* Mode.stop() from anywhere: only an active mode begins to stop (a starting one ignores it); returns whether it runs
+ModeStop == /\ md.kind # "none"
+            /\ IF md.st = "active"
+               THEN /\ tasks' = Append(tasks, ModeTask("mp", NoC)) /\ snapp' = Append(snapp, {})
+                    /\ md' = [md EXCEPT !.st = "stopping", !.ptask = Len(tasks) + 1] /\ UNCHANGED nops
+               ELSE Budget /\ UNCHANGED <<tasks, snapp, md>>
+            /\ act' = [op |-> "mstop", r |-> md.st \in {"active", "stopping"}]
+            /\ UNCHANGED <<reg, out, clr, inh>>
 Next == \/ \E h \in Hid, e \in Ev, p \in Prio, hk \in HkSet, cond \in CondSet : AddQ(h, e, p, hk, cond)
         \/ \E h \in Hid : RemoveQ(h)
         \/ \E e \in Ev, c \in CSet : PostQ(e, c)
         \/ \E k \in DOMAIN tasks, h \in Hid : QInvoke(k, h) \/ Clear(k, h) \/ SkipRemoved(k, h)
         \/ \E k \in DOMAIN tasks : QCallback(k) \/ QBegin(k)
         \/ Wait \/ QRet
+        \/ \E k \in DOMAIN tasks : QInvokeMode(k)
+        \/ \E c \in CSet : ModeStart(c)
+        \/ ModeStop \/ ModeCleaned
 Spec == Init /\ [][Next]_vars
 \* at rest (every wait the environment was going to clear has been cleared, loop has run): every task
 \* is finished or is legitimately held by an outstanding wait
 Rest == inh = NoH /\ \A k \in DOMAIN tasks : tasks[k].st = "done" \/ HasOut(k)
-Fair == /\ WF_vars(QRet) /\ \A k \in 1..MaxTasks : WF_vars(QCallback(k)) /\ WF_vars(QBegin(k)) /\ \A h \in Hid : WF_vars(QInvoke(k, h)) /\ WF_vars(Clear(k, h))
+\* (the mode's own queue events are not bounded by MaxTasks: at most two for each of the <= MaxOps start requests)
+TB == IF ModeKinds = {"none"} THEN MaxTasks ELSE MaxTasks + 2 * MaxOps
+Fair == /\ WF_vars(QRet) /\ WF_vars(ModeStop /\ md.st = "active") /\ WF_vars(ModeCleaned)
+        /\ \A k \in 1..TB : /\ WF_vars(QCallback(k)) /\ WF_vars(QBegin(k)) /\ WF_vars(QInvokeMode(k))
+                             /\ \A h \in Hid : WF_vars(QInvoke(k, h)) /\ WF_vars(Clear(k, h))
 LiveSpec == Spec /\ Fair
-\* every posted queue event eventually completes when all its waits get cleared
-AllComplete == \A k \in 1..MaxTasks : [](k \in DOMAIN tasks => <>(k \in DOMAIN tasks /\ tasks[k].st = "done"))
+\* every posted queue event eventually completes when all its waits get cleared (and a mode which holds one is stopped)
+AllComplete == \A k \in 1..TB : [](k \in DOMAIN tasks => <>(k \in DOMAIN tasks /\ tasks[k].st = "done"))
+\* ---- start requests of a mode (state monitors)
+\* a wait of the mode's start handler is outstanding only on the request which started the mode, and only while it runs:
+\* a refused request holds nothing, a stopped mode holds nothing
+ModeHoldsOnlyStarter == \A w \in out : w[2] = ModeH => (w = md.hold /\ md.st \in {"starting", "active", "stopping"} /\ md.kind = "wq")
+\* the queue event which started a use_wait_queue mode is held (asleep behind the mode's handler) until the mode has stopped
+StarterHeld == /\ md.hold # NoH => (md.hold \in out /\ tasks[md.hold[1]].st = "sleep")
+               /\ md.st \in {"idle", "cleanup"} => md.hold = NoH
+\* a refused request changes neither the waits nor the mode; an accepted one with use_wait_queue is held
+RefusedNoWait == [][act'.op = "mreq" => IF act'.acc THEN (md.kind = "wq" <=> <<act'.k, ModeH>> \in out')
+                                                    ELSE out' = out /\ md'.st = md.st /\ Len(tasks') = Len(tasks)]_vars
 =============================================================================
